@@ -23,6 +23,9 @@ Cases == Data.cases
 N == Len(Cases)
 
 Encs(c) == [k \in 1..Len(c.msgs) |-> Enc(Schemas[c.msgs[k].sid], ExpandV(c.msgs[k].value))]
+\* what a peer may have written instead: a conforming variant of each message (explicit defaults,
+\* unknown tagged fields); the sources are fed this stream
+EncsV(c) == [k \in 1..Len(c.msgs) |-> EncStructV(Schemas[c.msgs[k].sid], ExpandV(c.msgs[k].value), c.msgs[k].var)]
 RECURSIVE Bounds(_, _, _)
 Bounds(encs, k, acc) ==      \* positions after each message
   IF k > Len(encs) THEN <<>>
@@ -46,9 +49,12 @@ SourceFails(s, c, bounds, post) ==
 CaseFails(c) ==
   LET encs == Encs(c) pre == Bytes(c.pre) post == Bytes(c.post)
       full == pre \o FlattenSeq(encs) \o post
-      bounds == Bounds(encs, 1, Len(pre)) IN
+      bounds == Bounds(encs, 1, Len(pre))
+      encsv == EncsV(c)
+      boundsv == Bounds(encsv, 1, Len(pre)) IN
      UNION {SinkFails(c.sinks[i], full, bounds) : i \in 1..Len(c.sinks)}
-  \cup UNION {SourceFails(c.sources[i], c, bounds, post) : i \in 1..Len(c.sources)}
+  \cup UNION {SourceFails(c.sources[i], c, boundsv, post) : i \in 1..Len(c.sources)}
+  \cup (IF Bytes(c.peer) = pre \o FlattenSeq(encsv) \o post THEN {} ELSE {"harness_input_mismatch"})
   \cup (IF \A k \in 1..Len(c.msgs) : WellTyped(Schemas[c.msgs[k].sid], ExpandV(c.msgs[k].value)) THEN {} ELSE {"harness_value_not_well_typed"})
 
 VARIABLE ci
